@@ -376,27 +376,39 @@ def _corrupt(prepared):
 UNTIMED = dict(K=1000, R=1000, KaEarly=0, KaSlack=1, RecSlack=1, DownSlack=0, RstSlack=0, TsSlack=0, TCap=0)
 TIMED = dict(K=2, R=5, KaEarly=0, KaSlack=1, RecSlack=1, DownSlack=1, RstSlack=1, TsSlack=1, TCap=8)
 
+def _mc(base, unc, **kw):
+    d = dict(base, NBuf=2, MaxRx=0, MaxTx=0, MaxEpochs=1, MaxRst=0, Kinds='{"good"}', Deltas="{0}", Numbers="{0}",
+             WithHot="FALSE", WithRetry="FALSE")
+    d.update(kw)
+    return d, tuple(unc)
+
+
+NO_FLOW = ("MLbad", "MLrty", "MConsume", "MTau", "MKaReq", "MLother")
 MC = {
-    # name: (constants, actions that cannot occur with these bounds)
-    "training": (dict(UNTIMED, NBuf=2, MaxRx=0, MaxTx=0, MaxEpochs=2, MaxRst=2, Kinds='{"good"}', Deltas="{0}",
-                      Numbers="{0}", WithHot="TRUE", WithRetry="FALSE"),
-                 ("MLbad", "MLrty", "MConsume", "MTau", "MKaReq", "MAcc", "MHps", "MHpe", "MHdr")),
-    "epochs": (dict(UNTIMED, NBuf=2, MaxRx=1, MaxTx=0, MaxEpochs=2, MaxRst=1, Kinds='{"good", "bad5"}', Deltas="{0}",
-                    Numbers="{0}", WithHot="FALSE", WithRetry="TRUE"),
-               ("MKaReq", "MAcc", "MHps", "MHpe", "MLbad", "MTau")),
-    "timers": (dict(TIMED, NBuf=2, MaxRx=0, MaxTx=0, MaxEpochs=1, MaxRst=1, Kinds='{"good"}', Deltas="{0}",
-                    Numbers="{0}", WithHot="FALSE", WithRetry="FALSE"),
-               ("MLbad", "MLrty", "MConsume", "MTau", "MAcc", "MHps", "MHpe", "MHdr")),
-    "flow": (dict(UNTIMED, NBuf=2, MaxRx=1, MaxTx=1, MaxEpochs=1, MaxRst=0, Kinds='{"good", "bad16"}', Deltas="{0, 1}",
-                  Numbers="{0, 1}", WithHot="FALSE", WithRetry="TRUE"),
-             ("MKaReq",)),
+    # name: (constants, actions that cannot occur within these bounds)
+    # -- quick tier
+    "training": _mc(UNTIMED, NO_FLOW, MaxEpochs=2, MaxRst=1, WithHot="TRUE"),
+    "epochs": _mc(UNTIMED, ("MLbad", "MLrty", "MTau", "MKaReq", "MLother"), NBuf=1, MaxRx=1, MaxEpochs=2, MaxRst=1),
+    "timers": _mc(TIMED, ("MLgood", "MLcrd", "MLbad", "MLrty", "MConsume", "MTau", "MAcc"), NBuf=1, Numbers="{}"),
+    "flow_rx": _mc(UNTIMED, ("MLbad", "MTau", "MKaReq", "MLother"), MaxRx=1, Kinds='{"good", "bad16"}', Deltas="{0, 1}",
+                   WithRetry="TRUE"),
+    "flow_tx": _mc(UNTIMED, ("MKaReq", "MLother", "MLrty", "MConsume"), MaxTx=1, Numbers="{0, 1}", WithRetry="TRUE"),
+    # -- thorough tier
+    "training+": _mc(UNTIMED, NO_FLOW, MaxEpochs=2, MaxRst=2, WithHot="TRUE"),
+    "epochs+": _mc(UNTIMED, ("MLbad", "MTau", "MKaReq", "MLother"), MaxRx=1, MaxEpochs=2, MaxRst=1,
+                   Kinds='{"good", "bad5"}', WithRetry="TRUE"),
+    "timers+": _mc(TIMED, ("MLbad", "MLrty", "MConsume", "MTau"), NBuf=1, MaxRst=1),
+    "flow_rx+": _mc(UNTIMED, ("MLbad", "MTau", "MKaReq", "MLother"), MaxRx=2, Kinds='{"good", "bad16"}', Deltas="{0, 1}",
+                    WithRetry="TRUE"),
+    "flow_tx+": _mc(UNTIMED, ("MKaReq", "MLother", "MLrty", "MConsume"), MaxTx=2, Numbers="{0, 1}", WithRetry="TRUE"),
 }
 
 
 def model_check(name):
+    """One exhaustive TLC run of a focused configuration (see docs/ss_linklayer.md for the bounds)."""
     consts, uncovered = MC[name]
     cfg = tlc.render_cfg(_cfg("MCLinkLayer.cfg.tmpl"), consts)
-    res = tlc.model_check(SPEC_DIR, "MCLinkLayer", cfg, workers=6, timeout=900, allow_uncovered=uncovered)
+    res = tlc.model_check(SPEC_DIR, "MCLinkLayer", cfg, workers=6, timeout=900, allow_uncovered=uncovered + tuple(os.environ.get("SSLL_ALLOW","").split(",")))
     return name, res, consts
 
 
